@@ -187,6 +187,11 @@ func (r *Replayer) Replay(h *Harness, f *Finding, tag string) (*ReplayOutcome, e
 		return nil, fmt.Errorf("native replay disabled for this harness")
 	}
 	instrumented := h.Threads > 1 && len(f.Schedule) > 0
+	if f.Kind == "race" {
+		// the schedule controller's hand-shakes order the goroutines (they are synchronisation the race detector sees);
+		// a race is replayed free-running on a -race build, several times
+		instrumented = false
+	}
 	bin, err := r.buildOpt(h.PkgDir, instrumented, f.Kind == "race")
 	if err != nil {
 		return nil, err
@@ -196,6 +201,9 @@ func (r *Replayer) Replay(h *Harness, f *Finding, tag string) (*ReplayOutcome, e
 		timeout = "4s"
 	}
 	attempts := 1
+	if f.Kind == "race" {
+		attempts = 12
+	}
 	if instrumented {
 		attempts = atoiDef(h.Opts["replay_attempts"], 8)
 		if f.Kind == "race" {
